@@ -193,12 +193,22 @@ def run_case(case, wd):
     # path 2: state_dict / from_state_dict ; path 3: save / load
     st = json.loads(json.dumps(serialization.state_dict(SerializationContext(), root)))
     res["defs_state_dict"] = canon_defs(b, st["objects"])
-    r2 = serialization.from_state_dict(st)
+    r2 = serialization.from_state_dict(st)      # default discard_id=False: the stored identifiers are available
     res["id_state_dict"] = r2.__xpm__.full_identifier.all.hex()
+    res["raw_root_before"] = root.__xpm__.raw_identifier.all.hex()
+    res["raw_state_dict"] = r2.__xpm__.raw_identifier.all.hex()
+    # a new configuration that embeds the reloaded one must be identified like one embedding the original
+    from vpk import schema as _schema
+    try:
+        res["embed_before"] = _schema.Inner(c=root).__xpm__.full_identifier.all.hex()
+        res["embed_state_dict"] = _schema.Inner(c=r2).__xpm__.full_identifier.all.hex()
+    except Exception as e:  # noqa
+        res["embed_before"] = res["embed_state_dict"] = "exc:" + type(e).__name__
     d = Path(tempfile.mkdtemp(prefix="c12-", dir=wd))
     serialization.save(root, d)
     r3 = serialization.load(d)
     res["id_save_load"] = r3.__xpm__.full_identifier.all.hex()
+    res["raw_save_load"] = r3.__xpm__.raw_identifier.all.hex()
     res["defs_save"] = canon_defs(b, json.load(open(d / "definition.json"))["objects"])
     try:
         res["instance"] = instance_view(objects, None, b)
